@@ -158,17 +158,21 @@ package fs
 // copy.go: matching, notification, deferred parents, recursion
 // ---------------------------------------------------------------------------
 
+//@ effectdecl IncludeEvaluated(path string)
+//@ effectdecl ExcludeEvaluated(path string)
 //@ func copier.include
 //@   property C16
 //@   requires c != nil
-//@   effects MatchRes
+//@   effects MatchRes IncludeEvaluated
+//@   posteffect IncludeEvaluated(path)
 //@   ensures nomatcher: c.includePatternMatcher == nil ==> result0 && result2 == nil
 //@   ensures err: result2 != nil ==> !result0
 
 //@ func copier.exclude
 //@   property C16
 //@   requires c != nil
-//@   effects MatchRes
+//@   effects MatchRes ExcludeEvaluated
+//@   posteffect ExcludeEvaluated(path)
 //@   ensures nomatcher: c.excludePatternMatcher == nil ==> !result0 && result2 == nil
 //@   ensures err: result2 != nil ==> !result0
 
@@ -262,6 +266,10 @@ package fs
 //@   at call copier.createParentDirs: selected: include && (srcComponents == "" || (matchesIncludePattern && !matchesExcludePattern))
 //@   at call ensureEmptyFileTarget: selected_file: include && !fi.IsDir() && arg0 == target
 //@   at call copier.copyDirectory: dir: fi.IsDir() && arg7 == include
+// like the filtered walk, the copy evaluates BOTH pattern lists on every entry below the root -
+// also on one the include patterns reject: the matchers are incremental, and what is handed to a
+// directory's children is the result of evaluating this very directory
+//@   at call copier.copyDirectory: both_pattern_lists_evaluated_for_this_entry: srcComponents != "" ==> cnt(IncludeEvaluated) > old(cnt(IncludeEvaluated)) && arg(IncludeEvaluated, 0) == srcComponents && cnt(ExcludeEvaluated) > old(cnt(ExcludeEvaluated)) && arg(ExcludeEvaluated, 0) == srcComponents
 //@   at call getLinkSource: regular: include && fi.Mode() & os.ModeType == 0
 // a non-directory is always created at a path that was just emptied (an existing entry is
 // unlinked, never rewritten in place: other names of its inode keep their content)
